@@ -30,6 +30,10 @@ SuccP(g, s) == {g.tr[s][k].t : k \in {k \in TrIdx(g, s) : g.owner[s] # PR \/ g.t
 IsPlayer(g, s) == g.owner[s] \in {P1, P2}
 StatesOf(g, o) == {s \in States(g) : g.owner[s] = o}
 
+\* rewards are g.reward[s] / RScale(g): descriptions written by hand may carry rational
+\* rewards (the paper's figure 5.5 has 5/3); generated ones have no such field
+RScale(g) == IF "rscale" \in DOMAIN g THEN g.rscale ELSE 1
+
 RECURSIVE SumW(_, _)
 SumW(row, k) == IF k = 0 THEN 0 ELSE row[k].w + SumW(row, k - 1)
 TotalW(g, s) == SumW(g.tr[s], Len(g.tr[s]))
